@@ -90,9 +90,9 @@ def find_two(a0, a1, b0, b1, s, e, cfg):
 
 find_two.__pyvc_thm__ = True
 import os as _os
-if _os.environ.get("VERIF_TIER_EFFECTIVE", "quick") == "thorough":       # ~300 paths: thorough tier only
-    theorem(P, "find-two-files[ymd-dirs]", a0=_dt("a0", 3), a1=_dt("a1", 3), b0=_dt("b0", 3), b1=_dt("b1", 3), s=_dt("s", 6), e=_dt("e", 6),
-            cfg=Kind("const", value={"layout": "ymd-dirs"}))(find_two)
+# two files: in the flat layout (no directory pruning, so the path count stays small) in both tiers; ...
+theorem(P, "find-two-files[flat]", a0=_dt("a0", 2), a1=_dt("a1", 2), b0=_dt("b0", 2), b1=_dt("b1", 2), s=_dt("s", 6), e=_dt("e", 6),
+        cfg=Kind("const", value={"layout": "flat"}))(find_two)
 
 
 @theorem(P, "exclusion-and-errors", t0=_dt("t0", 3), t1=_dt("t1", 3), s=_dt("s", 6), e=_dt("e", 6))
